@@ -42,6 +42,12 @@ def maxScriptSize : Nat := 10000
 /-- `txscript.OP_RETURN`. -/
 def opReturn : UInt8 := 0x6a
 
+/-- `txscript.OP_DATA_75`, `OP_PUSHDATA1`, `OP_PUSHDATA2`, `OP_PUSHDATA4`. -/
+def opData75 : Nat := 75
+def opPushData1 : Nat := 76
+def opPushData2 : Nat := 77
+def opPushData4 : Nat := 78
+
 /-- The version-0 script tokenizer succeeds on the whole script: every push opcode has its
 data (`0x01..0x4b` direct, `0x4c/0x4d/0x4e` with 1/2/4-byte little-endian length). -/
 def scriptParses : Nat → List UInt8 → Bool
@@ -49,19 +55,19 @@ def scriptParses : Nat → List UInt8 → Bool
   | 0, _ :: _ => false
   | fuel + 1, op :: rest =>
     let n := op.toNat
-    if 1 ≤ n ∧ n ≤ 75 then
+    if 1 ≤ n ∧ n ≤ opData75 then
       if n ≤ rest.length then scriptParses fuel (rest.drop n) else false
-    else if n = 76 then
+    else if n = opPushData1 then
       match rest with
       | l :: r => if l.toNat ≤ r.length then scriptParses fuel (r.drop l.toNat) else false
       | _ => false
-    else if n = 77 then
+    else if n = opPushData2 then
       match rest with
       | l0 :: l1 :: r =>
         let len := l0.toNat + 256 * l1.toNat
         if len ≤ r.length then scriptParses fuel (r.drop len) else false
       | _ => false
-    else if n = 78 then
+    else if n = opPushData4 then
       match rest with
       | l0 :: l1 :: l2 :: l3 :: r =>
         let len := l0.toNat + 256 * l1.toNat + 65536 * l2.toNat + 16777216 * l3.toNat
